@@ -159,8 +159,11 @@ def gen(tape: Tape, tier: str) -> dict:
                                         "nanargmax", "nanfirst", "prod", {"custom": "range"}, {"custom": "scaled"}])
         kw = {"func": func}
         if tape.chance("gen.exp", 0.5):
-            kw["expected_groups"] = np.arange(ngroups + 1)
+            kw["expected_groups"] = np.arange(ngroups + 1) if tape.chance("gen.exp.sorted", 0.7) else np.arange(ngroups + 1)[::-1].copy()
             kw["fill_value"] = -1 if isinstance(func, str) and "arg" in func else 0
+            kw["__eg_container__"] = tape.choice("gen.exp.container", ["ndarray", "list", "index"])
+            if tape.chance("gen.exp.nosort", 0.3):
+                kw["sort"] = False
         method = tape.choice("gen.method", [None, "map-reduce", "cohorts"])
         if method:
             kw["method"] = method
@@ -357,11 +360,21 @@ def _decode_kwargs(enc, user_aggs):
 
             pool[key] = ReindexStrategy(blockwise=r["__reindex__"]["blockwise"])
         kw["reindex"] = pool[key]
+    cont = kw.pop("__eg_container__", None)
     for name in ("expected_groups", "finalize_kwargs"):
         if name in kw and enc and name in enc:
-            key = name + ":" + json.dumps(enc[name], sort_keys=True, default=str)
+            key = name + ":" + str(cont if name == "expected_groups" else "") + ":" + json.dumps(enc[name], sort_keys=True, default=str)
             if key not in pool:
-                pool[key] = kw[name]
+                obj = kw[name]
+                if name == "expected_groups" and isinstance(obj, np.ndarray):
+                    # the caller's container: list / ndarray / pandas Index (must come back untouched)
+                    if cont == "list":
+                        obj = obj.tolist()
+                    elif cont == "index":
+                        import pandas as pd
+
+                        obj = pd.Index(obj)
+                pool[key] = obj
             kw[name] = pool[key]
     f = kw.get("func")
     if isinstance(f, dict) and "custom" in f:
@@ -450,6 +463,18 @@ def do_call(arrays, labels, op, user_aggs):
     else:
         raise ValueError(api)
     return tuple(out)
+
+
+def _obj_digest(obj):
+    """Semantic state of an argument object (a pandas Index caches derived values in its __dict__:
+    that is not a modification)."""
+    import dataclasses
+
+    import pandas as pd
+
+    if isinstance(obj, (pd.Index, np.ndarray, list, tuple, dict)) or dataclasses.is_dataclass(obj):
+        return digest(obj, size=12)
+    return digest(vars(obj) if hasattr(obj, "__dict__") else obj, size=12)
 
 
 def _xobj_digest(obj, labda):
@@ -558,7 +583,7 @@ def run(case, tape: Tape, ctx):
                 raise Violation("side-effect", f"op {i} ({op.get('api', op['op'])}) modified its {'value' if kind == 'arr' else 'label'} "
                                 f"array argument #{j}", op=i, api=op.get("api"))
         for key, obj in user_aggs.get("__objects__", {}).items():
-            d = digest(vars(obj) if hasattr(obj, "__dict__") else obj, size=12)
+            d = _obj_digest(obj)
             if obj_digests.setdefault(key, d) != d:
                 raise Violation("side-effect", f"op {i} ({op.get('api')}) modified its {key.split(':')[0]} argument object "
                                 f"({key})", op=i, api=op.get("api"), argument=key.split(":")[0])
@@ -598,7 +623,7 @@ def run(case, tape: Tape, ctx):
                         ctx.probe("custom_aggregation_reused", len([1 for o in case["ops"][:i] if o.get("op") == "call" and isinstance(dec_value(o.get("kwargs") or {}).get("func"), dict)]) > 0)
                     kw_objs = _decode_kwargs(op.get("kwargs"), user_aggs)
                     for key, obj in user_aggs.get("__objects__", {}).items():
-                        obj_digests.setdefault(key, digest(vars(obj) if hasattr(obj, "__dict__") else obj, size=12))
+                        obj_digests.setdefault(key, _obj_digest(obj))
                     eg = kw_objs.get("expected_groups")
                     eg_d = digest(eg) if eg is not None else None
                     hits0 = getattr(flox.cache.cache, "hits", None)
